@@ -8,7 +8,9 @@ Decides:
                    protocol exit for unknown revisions).
  H hide            ParseHide::eval brackets the inner eval with swap_comps_with on one local stash that is never handed back:
                    hidden items are never offered.  The same bracket in group_help / complete / complete_shell hands the stash
-                   back (their items stay visible).
+                   back (their items stay visible).  Every return after the inner eval passes the restoring swap (also on failure).
+ L last item       `index + 1 == len` in the keep/drop decision between alternatives compares the index with the length of the
+                   collection it enumerates (not with the number of remaining items).
  E hint emission   every failing exit of the four primitives (flag, argument, positional, command) is preceded by a call into
                    the hint family for that item; push_* record the current depth and act only when completion is on.
  W wrappers hand hints over   fallback / fallback_with move the hints collected on the scratch clone back to the caller's
